@@ -3,7 +3,7 @@ value."""
 import copy
 
 from vivarium.core.engine import Engine
-from vivarium.core.process import Process
+from vivarium.core.process import Process, Step
 from vivarium.core.composer import Composite
 from vivarium.core.store import generate_state
 from vivarium.library.units import units
@@ -61,6 +61,14 @@ class P(Process):
         return {}
 
 
+class S(Step):
+    def ports_schema(self):
+        return self.parameters['schema']
+
+    def next_update(self, timestep, states):
+        return {}
+
+
 def jobs(tier):
     q = tier == 'quick'
     out = []
@@ -108,6 +116,19 @@ def part_value(ctx, cfg):
             own[(n, resolve(parent, w) + ('v',))] = ov
         procs[n] = P({'schema': schema, 'init': init})
         topo[n] = {'port': w}
+    # a step (declared under steps=, with a flow entry) declares a variable of
+    # its own two levels down and one shared with the first process
+    sw = ctx.int('dv', -9, 9)
+    w0 = WIRES[cfg['w0']] if resolve(parent, WIRES[cfg['w0']]) is not None \
+        and not (WIRES[cfg['w0']][0] == '..' and depth == 0) else ('A',)
+    step_schema = {'port': {'v': {'_default': sw}},
+                   'deep': {'lvl': {'w': {'_default': 6}}}}
+    decl.setdefault(resolve(parent, w0) + ('v',), []).append(sw)
+    step = S({'schema': step_schema})
+    steps = nest({'st': step}, parent)
+    flow = nest({'st': []}, parent)
+    topo['st'] = {'port': w0, 'deep': ('D',)}
+    deep_node = parent + ('D', 'lvl', 'w')
     processes = nest(dict(procs), parent)
     topology = nest(dict(topo), parent)
     nodes = sorted(decl)
@@ -149,17 +170,19 @@ def part_value(ctx, cfg):
                     cl.append(IMPLIES(same, EQ(actual, ds[0])))
                     cl.append(OR([EQ(actual, x) for x in ds]))
             ctx.observe(label + str(node), actual)
+        cl.append(get(val, deep_node, None) == 6)
         return AND(cl)
-    e = Engine(processes=processes, topology=topology,
+    e = Engine(processes=processes, steps=steps, flow=flow, topology=topology,
                initial_state=copy.deepcopy(init), display_info=False,
                emitter='null')
     ctx.claim('C15.value', expected(e.state.get_value(), 'engine'),
               sig='value-engine', info=info)
-    st = generate_state(processes, topology, copy.deepcopy(init))
+    st = generate_state(processes, topology, copy.deepcopy(init), steps, flow)
     ctx.claim('C15.value', expected(st.get_value(), 'generate_state'),
               sig='value-generate_state', info=info)
     # ---- Composite.initial_state / default_state / generate_store
-    comp = Composite({'processes': processes, 'topology': topology})
+    comp = Composite({'processes': processes, 'topology': topology,
+                      'steps': steps, 'flow': flow})
     ist = comp.initial_state({'initial_state': copy.deepcopy(init)})
     cl = [not _has_multi(ist)]
     for (n, node), ov in own.items():
@@ -189,6 +212,7 @@ def part_value(ctx, cfg):
               info=lambda: dict(initial_state=ist, default_state=dst, own={
                   str(k): v for k, v in own.items()}, **info()))
     comp2 = Composite({'processes': processes, 'topology': topology,
+                       'steps': steps, 'flow': flow,
                        'state': copy.deepcopy(init)})
     store = comp2.generate_store()
     val = store.get_value()
